@@ -258,6 +258,16 @@ func (ro *RedisOutput) SetRunId(ctx context.Context, id string) error {
 	}, 3, time.Second*4, 0.3)
 }
 
+// DropStartPoint is called before the run id changes to newRunId because of a full resynchronisation :
+// the stored resume position of the current run id is replaced by the "none yet" marker, so that nothing
+// of the old history is carried over to the new id.
+func (ro *RedisOutput) DropStartPoint(ctx context.Context, newRunId string) error {
+	if ro.cfg.RunId == "" || ro.cfg.RunId == newRunId {
+		return nil
+	}
+	return ro.setCheckpoint(ctx, ro.cfg.RunId, -1, config.Version)
+}
+
 func (ro *RedisOutput) Send(ctx context.Context, reader ChannelReader) error {
 	if reader.IsAof() {
 		return ro.SendAof(ctx, reader)
